@@ -289,6 +289,7 @@ def _run(chk, wd, proved):
         base_ops.append(['stopfail', i])
         base_ops.append(['finish', i, b'', ['room', env.BIG], False])
         base_ops.append(['spawn', i, 200 + i])
+        base_ops.append(['spawnfail', i])
         base_ops.append(['running', i])
     for w0 in W:
         base_ops.append(['dispatch', None, [w0, ['room', env.BIG]]])
@@ -300,6 +301,9 @@ def _run(chk, wd, proved):
                      ['dispatch', 5, [['room', 20], ['room', env.BIG]]],
                      ['spawn', 1, 102], ['running', 1]],
         'cold': [],
+        # fork failed for one listener: its pipes were closed again, the other listener reuses the numbers
+        'fork-failed-0': [['spawnfail', 0]],
+        'fork-failed-1': [['spawnfail', 1]],
         # listener 0 RUNNING+READY, listener 1 respawned: it has announced READY but is still STARTING
         'starting-ready': [['spawn', 0, 101], ['running', 0], ['feed', 0, b'READY\n'],
                            ['spawn', 1, 102], ['feed', 1, b'READY\n']],
@@ -315,7 +319,8 @@ def _run(chk, wd, proved):
     for sname, setup in sorted(s_setups.items()):
         d = depth if (quick or sname == 'both-ready') else 2
         for seq in itertools.product(base_ops, repeat=d):
-            if quick and rng.random() < (0.7 if sname == 'cold' else 0.45):
+            must = sname.startswith('fork-failed') and seq[0][0] == 'spawn' and seq[-1][0] == 'feed'
+            if quick and not must and rng.random() < (0.75 if sname in ('cold', 'fork-failed-0', 'fork-failed-1') else 0.45):
                 continue
             ops = [inst(o) for o in seq]
             cur['strip'] = bool(len(cases) % 2)
@@ -340,6 +345,8 @@ def _run(chk, wd, proved):
             elif r < 0.65:
                 ops.append(['writable', i, rng.choice(W + [['room', 25]])])
             elif r < 0.78:
+                if rng.random() < 0.2:
+                    ops.append(['spawnfail', rng.randrange(2)])
                 ops.append(['spawn', i, rng.randrange(300, 400)])
                 if rng.random() < 0.75:      # else READY is announced while still STARTING
                     ops.append(['running', i])
@@ -475,7 +482,7 @@ def _run(chk, wd, proved):
                    '<= %d bytes, else every single cut + byte-wise + random cuts (%d fragmentation runs compared '
                    'implementation-against-itself, byte-wise/whole/one random per stream compared with the model in Coq); '
                    'E: dispatch attempt after every fragment; S: every sequence of %d operations over %d operation kinds '
-                   'from 4 start configurations of two listeners (incl. stop requests whose signal fails: process state UNKNOWN) + %d random histories of 4-13 operations; '
+                   'from 6 start configurations of two listeners (incl. stop requests whose signal fails: process state UNKNOWN) + %d random histories of 4-13 operations; '
                    'distinct = distinct (observed state of all listeners, effects) pairs after an operation'
                    % (len(streams), len(TOKENS), len(CORE), exh_upto, frag_runs, depth, len(base_ops), nrand))
     cov['samples'] = [meta[0], meta[len(meta) // 2], meta[-1]]
